@@ -89,7 +89,7 @@ def run_batch(chk: Check, drv: Driver, prepared, n_inputs: int, real: bool, back
         if pr.broadcast or not getattr(pr, "_cases", None):
             continue
         inputs_list = [ins for _, ins in pr._cases]
-        res = WORKER.run(pr.text, pr.fs, inputs_list, backend, timeout=60)
+        res = WORKER.run(pr.text, pr.fs, inputs_list, backend, timeout=240)
         chk.count("real_problems")
         if res[0] == "crash":
             f = kruns.finding_for(chk, pr, "crash")
@@ -161,7 +161,7 @@ def front_half(chk: Check, drv: Driver):
         if not (isinstance(rv, list) and rv[0] == "ok"):
             chk.unproved_obligation("correspondence:denote", f"driver: {sx(rv)[:200]}", case)
             continue
-        exp = kernels.denote(a, ins, sizes)
+        exp = kernels.denote(a, ins, sizes, exact=True)
         for c, v, vd in rv[1]:
             c = tuple(int(x) for x in c)
             v, vd = algebra.parse_q(v), algebra.parse_q(vd)
